@@ -545,7 +545,19 @@ D09B_EXPECT = '<a>[<i>nb</i>]</a>|<c>p</c>|<c>p</c>|<a>[<i>nb</i>]</a>'
 D09B_ACTUAL = '<a>[<i>nb</i>]</a>|<c>p</c>|<c>p</c>|<a>[<u>LEAK</u>]</a>'
 
 
+D09E = ('<div><p metal:define-macro="m" i18n:translate="">Hello <b metal:define-slot="s">d</b> end</p>'
+        '<x metal:use-macro="template.macros[\'m\']"><b metal:fill-slot="s">FILL</b></x></div>')
+
+
 def reproduce_finding(ctx, f):
+    if f['id'] == 'D-09e':
+        from chameleon import PageTemplate
+        try:
+            out = PageTemplate(D09E)()
+        except Exception:
+            return False
+        # inlining gives '<p>Hello <b>FILL</b> end</p>' for the use
+        return out == '<div><p>Hello <b>d</b> end</p><p><b>FILL</b>Hello end</p></div>'
     return None
 
 
